@@ -143,7 +143,7 @@ Section Ops.
       | _ => match s_sched st, s_forced st with None, None => true | _, _ => false end
       end
     | Fin b r =>
-      (b <? N.of_nat (length bs)) && sanc bs (s_fin st) b && (s_round st <? r) &&
+      (b <? N.of_nat (length bs)) && anc bs (s_fin st) b && (s_round st <? r) &&
       match s_sched st with
       | None => true
       | Some (a, d) => sched_applies bs (s_sched st) b || sanc bs b a
@@ -158,6 +158,14 @@ Section Ops.
   Definition fin_block_units (bs : blocks) (x : N) : list wunit :=
     [WPut (KHdr x) VUnit] ++ (if numof bs x =? 1 then [WPut KFsn VUnit] else []) ++
     [WPut (KBlb x) VUnit; WPut (KArr x) VUnit].
+
+  (* handleFinalisedBlock returns before creating the batch when the block is the finalised
+     head already (a later round finalising the same block): no number->hash batch then *)
+  Definition hsh_batch (bs : blocks) (ch : list N) : list wunit :=
+    match ch with
+    | [] => []
+    | _ :: _ => [WBatch (map (fun x => (KHsh (numof bs x), VBlk x)) ch)]
+    end.
 
   Definition step (st : sim) (o : sop) : list wunit * sim :=
     if negb (valid st o) then ([], st) else
@@ -177,9 +185,8 @@ Section Ops.
       match chain bs (s_fin st) b with
       | None => ([], st)
       | Some ch =>
-        let ws := concat (map (fin_block_units bs) ch) ++
-                  [WBatch (map (fun x => (KHsh (numof bs x), VBlk x)) ch);
-                   WPut (KFh r (s_set st)) (VBlk b); WPut KHrs (VPair r (s_set st));
+        let ws := concat (map (fin_block_units bs) ch) ++ hsh_batch bs ch ++
+                  [WPut (KFh r (s_set st)) (VBlk b); WPut KHrs (VPair r (s_set st));
                    WPut KLfr (VNum r)] in
         if sched_applies bs (s_sched st) b then
           (ws ++ change_units (s_set st), mks bs b 0 (s_set st + 1) None (s_forced st))
